@@ -36,6 +36,18 @@ _COMP = {
 }
 
 
+# utterance ids of different lengths with prefix / substring relations in both map orders
+_ID_POOLS = (
+    ("utt10", "utt1", "utt", "spk-utt10", "ab", "a"),
+    ("a", "ab", "utt", "utt1", "utt10-x", "x-utt"),
+    ("utt0", "utt1-", "utt2-a", "utt3", "utt4-", "utt5"),
+)
+
+
+def _utt_id(case, i):
+    return _ID_POOLS[case.get("ids", 0) % len(_ID_POOLS)][i]
+
+
 def _setup(case, td):
     raw = os.path.join(td, "raw")
     os.makedirs(raw)
@@ -46,7 +58,7 @@ def _setup(case, td):
             rng = np.random.Generator(np.random.PCG64(case["seed"] * 1000 + i))
             p = os.path.join(raw, "s%d.npy" % i)
             np.save(p, (rng.standard_normal(n) * 100).astype(np.float32))
-            utt = "utt%d" % i + "-ab"[: i % 3]
+            utt = _utt_id(case, i)
             ids.append(utt)
             f.write("%s %s\n" % (utt, p))
     return mp, ids
@@ -232,6 +244,7 @@ def _base():
     return dict(
         lens=st.lists(st.sampled_from([40, 25, 9, 3, 64, 17]), min_size=1, max_size=5),
         seed=st.integers(0, 10 ** 6),
+        ids=st.integers(0, 2),
         dither=st.sampled_from([1.0, 1.0, 5.0]),
         comp=st.sampled_from([True, True, False]),
     )
@@ -280,7 +293,7 @@ def _grid(tier):
             for phase in cli_crash.PHASES:
                 for kind in cli_crash.KINDS:
                     for w in ((0, 2) if tier == "thorough" else (0,)):
-                        yield {"lens": lens_all[:n], "seed": 11 + n, "dither": 1.0, "comp": True,
+                        yield {"lens": lens_all[:n], "seed": 11 + n, "ids": n + k, "dither": 1.0, "comp": True,
                                "crash": {"k": k, "phase": phase, "kind": kind}, "workers": w, "delays": [7, 0, 3] if w else None}
 
 
